@@ -565,6 +565,7 @@ def main(mod, argv):
   ap.add_argument('--jobs', type=int, default=int(os.environ.get('VERIF_JOBS') or 16))
   ap.add_argument('--index', type=int, help='run a single run index in-process and print it')
   ap.add_argument('--no-minimise', action='store_true')
+  ap.add_argument('--survey', action='store_true', help='do not stop at violations; print clusters of (clause, details) and exit')
   args = ap.parse_args(argv)
   tier = args.tier if args.tier in ('quick', 'thorough') else 'quick'
   seed = int(os.environ.get('VERIF_SEED') or 0)
@@ -582,6 +583,19 @@ def main(mod, argv):
   budget = args.budget or float(os.environ.get('VERIF_BUDGET_S') or cfg['budget_s'])
   max_runs = args.runs if args.runs is not None else cfg.get('max_runs')
   known = load_known(mod.PROPERTY)
+  if args.survey:
+    agg, viols, abns, wall = search(mod, seed, budget, max_runs, args.jobs, stop_after_viol=10 ** 9)
+    clusters = {}
+    for item in viols:
+      for v in item['violations']:
+        det = v.get('details', {})
+        key = (v['clause'], json.dumps({k: det[k] for k in sorted(det) if isinstance(det[k], (bool, str, type(None))) and k not in ('info', 'msg', 'phase', 'started', 'still_running')}, sort_keys=True))
+        c = clusters.setdefault(key, [0, item['idx'], match_known(known, v) is not None])
+        c[0] += 1
+    for key in sorted(clusters, key=lambda k: -clusters[k][0]):
+      print('%6d  %s%s  %s   (e.g. run index %d)' % (clusters[key][0], 'KNOWN ' if clusters[key][2] else '', key[0], key[1], clusters[key][1]))
+    print('runs=%d wall=%.1fs abnormal=%s harness=%s' % (agg.runs, wall, agg.abnormal, [a[1][:200] for a in abns[:3]]))
+    return 0
   agg, viols, abns, wall = search(mod, seed, budget, max_runs, args.jobs)
   extra = None
   post = getattr(mod, 'post_search', None)
